@@ -1231,6 +1231,8 @@ class MemoryCache:
     def put(self, memento: Memento, result: object, has_result: bool):
         cache_key = self._cache_key_for_memento(memento)
         if has_result:
+            # A weak reference to an earlier result of this call must not outlive it
+            self.refs.pop(cache_key, None)
             self._put_ref(cache_key, result)
 
         # Remove any existing cached items for this memento, so a stale entry is never
